@@ -253,7 +253,7 @@ func runMap(rec *MapRec) {
 		if o.err == "" {
 			rec.Queries = o.q
 		}
-	case <-time.After(10 * time.Second):
+	case <-time.After(30 * time.Second):
 		rec.Err = "timeout"
 		rec.Do = [][]DoEv{}
 		rec.Filt = []FiltEv{}
